@@ -7,7 +7,7 @@
   * `discipline_holds`   — every location class outside `badClassIds` passes `checkClass`;
   * `classes_partition`  — good and bad class ids partition the class table;
   * `bad_classes_exact`  — `badClassIds` are exactly the classes with a violating pair;
-  * `bad_classes_known`  — each bad class is one a listed finding explains (F13a/b/c, F21a/b);
+  * `bad_classes_known`  — each bad class is one a listed finding explains (F13e/b/c, F21b);
                            a change that breaks the discipline for another class fails here;
   * `race_free_good_classes` — the general theorem applied to the regenerated table.
 -/
@@ -39,15 +39,13 @@ theorem bad_classes_exact :
       under `refMu` only (what is left of F13a after fix fd9f01440);
     * F13b `runnerRef.loading` written under `refMu` only, read under `loadedMu` only;
     * F13c `ByDurationAndName.Less` reads `sessionDuration` with no lock (writer: `expireRunner`);
-    * F21a `CancelFunc` assigned inside the `Run` goroutine, read by `release()`;
     * F21b a transfer is published in the sync.Map before `Prepare` fills `Total`/`done`, and
       `blobUpload.done/err` are plain fields polled by `Wait`.
-    `Scheduler.loaded`, `runnerRef.model/estimatedTotal/estimatedVRAM` (F13a, fixed) are no longer
-    listed: a change that re-opens them fails `bad_classes_known`. -/
+    `Scheduler.loaded`, `runnerRef.model/estimatedTotal/estimatedVRAM` (F13a, fixed fd9f01440) and
+    `blobDownload/blobUpload.CancelFunc` (F21a, fixed 1b1f19392) are no longer listed: a change that re-opens them fails `bad_classes_known`. -/
 def knownBadClasses : List String :=
   [ "runnerRef.expiresAt", "runnerRef.sessionDuration",            -- F13e (+ F13c on sessionDuration)
     "runnerRef.loading",                                           -- F13b
-    "blobDownload.CancelFunc", "blobUpload.CancelFunc",            -- F21a
     "blobDownload.Total", "blobDownload.done", "blobUpload.Total", "blobUpload.done", "blobUpload.err" ] -- F21b
 
 theorem bad_classes_known : badClassNames.all (knownBadClasses.contains ·) = true := by decide
